@@ -99,6 +99,22 @@ Example C08_fft_example :
 Proof. vm_compute. repeat split. Qed.
 Print Assumptions C08_fft_example.
 
+(* real=True: half spectrum with sqrt(2) on bins 1..(nfft-1)/2; forward and
+   adjoint models (fft.py, real branch; C2R ignores Im of the zero / Nyquist
+   bins) are an adjoint pair for the REAL inner product, for every w and N.
+   _partial: only the adjoint identity is proved; the real-input isometry
+   radj (rfwd x) = x (needs the Hermitian-symmetry reindexing of the full
+   spectrum) is NOT proved here - it is covered by the round trips run on the
+   implementation.  s2*s2 = 2 has no exact instance among the executable
+   rings (sqrt 2 is irrational): the hypothesis is met in the real numbers. *)
+Theorem C08_rfft_adjoint_partial :
+  forall (F : FieldS) (w : F) (N : nat) (s2 : F),
+    s2 * s2 = 1 + 1 -> conj F s2 = s2 -> (1 + 1 : F) <> 0 ->
+    forall x y : list F, (forall j, conj F (nth j x 0) = nth j x 0) -> length y = (N / 2 + 1)%nat ->
+      1 / (1 + 1) * re2 F (dot F (rfwd F w N s2 x) y) = dotu F x (radj F w N s2 (length x) y).
+Proof. exact rfft_adjoint. Qed.
+Print Assumptions C08_rfft_adjoint_partial.
+
 (* shifts: inverse and adjoint pairs *)
 Theorem C08_shift_inverse :
   forall (S : StarRing) (x : list S), fftshift S (ifftshift S x) = x /\ ifftshift S (fftshift S x) = x.
